@@ -16,6 +16,17 @@
     `Coh t e c`        cache c is coherent with attributes e: every set entry equals `spec`,
                        every remembered local result equals the local comparison, a set
                        entry's parent entry is set
+    `Deps t i k`       block i's outcome may depend on field k (its own field, those of its
+                       enclosing blocks and of the earlier branches of their chains);
+                       `DepsValid t valid i` = all of them are set in r->conditional_is_valid;
+                       `TreeValid t valid` = every field tested anywhere in the configuration is
+                       (the masks of http_request_headers_fin() and http_response_comeback())
+    `Disciplined n pend ops`  the server's discipline for streams: between h2_init_stream()
+                       (`Op.spawn`: new request_st, cache and valid bits copied, own attributes
+                       empty) and the stream's first full reset (http_response_config()) no
+                       condition is evaluated on that stream; `SlotsOk` = all other requests
+                       have coherent caches
+    `LastWins t e dirs d x`  x is the value of the last contributing block that assigns d
 -/
 import LtVerif.Proofs.Cond
 import LtVerif.Proofs.SockAddr
@@ -24,43 +35,67 @@ open LtVerif B LtVerif.Cond LtVerif.SockAddr
 
 /-! ## 1. cached evaluation = the language semantics, for every interleaving -/
 
-/-- For every well-formed condition tree, every connection state whose caches are coherent
-    (in particular fresh requests), and EVERY sequence of operations
+/-- For every well-formed condition tree, every connection state in which the requests that
+    are not fresh streams have coherent caches (in particular one fresh request), and EVERY
+    disciplined sequence of operations
     {check any block on any request, rewrite an attribute then reset_item, full reset,
-     change of validity bits, next request, spawn an HTTP/2 stream from the connection's
-     request, run a module's patch_config}:
-    every `config_check_cond` result is the language-defined one for the attributes that
-    request has at that moment:
-      * `true` is only ever returned for a block that applies;
-      * any decided result (not "unset") is the specified one;
-      * once all fields are available the result is `true` iff the block applies
-        (so it does not depend on evaluation order, on cached results, on earlier requests
-         of the connection / other streams, or on rewrites in between);
-    and the caches stay coherent. -/
-theorem c14_cache_coherent (t : Tree) (hwf : WF t) (st0 : List Req) (h0 : AllCoh t st0)
-    (ops : List Op) :
+     change of validity bits (any mask, growing or shrinking), next request, spawn an HTTP/2
+     stream (cache copied into a request with other attributes), a module's patch_config}:
+      * `config_check_cond` returns `true` only for a block that applies to the attributes
+        the request has at that moment; any decided result is the specified one;
+      * if the fields the block depends on are available — in particular under the masks of
+        the first pass and of the pass after HANDLER_COMEBACK — the result is `true` iff the
+        block applies (so it does not depend on evaluation order, cached results, earlier
+        requests of the connection, other streams, or rewrites in between);
+      * every patch_config observed in the history gives each directive the value of the
+        last contributing block (when every field tested in the configuration is available). -/
+theorem c14_cache_coherent (t : Tree) (hwf : WF t) (st0 : List Req) (pend0 : List Nat) (n : Nat)
+    (hlen : st0.length = n) (hn : 1 ≤ n) (hnodes : 0 < t.length) (h0 : SlotsOk t st0 pend0)
+    (ops : List Op) (hd : Disciplined n pend0 ops) :
     ∀ so ∈ run true t st0 ops,
-      AllCoh t so.1 ∧
       (∀ s i r, so.2 = .result s i r → ∀ rq, so.1[s]? = some rq →
         (r = .true_ → Applies t rq.env i) ∧
         (r ≠ .unset → r = spec t rq.env i) ∧
-        ((∀ k, rq.valid k = true) → (r = .true_ ↔ Applies t rq.env i))) := by
+        (DepsValid t rq.valid i → (r = .true_ ↔ Applies t rq.env i))) ∧
+      (∀ s dirs conf, so.2 = .conf s dirs conf → ∀ rq, so.1[s]? = some rq →
+        TreeValid t rq.valid → ∀ d, LastWins t rq.env dirs d (conf d)) := by
   intro so hso
-  obtain ⟨h1, h2⟩ := run_ok hwf ops st0 h0 so hso
-  refine ⟨h1, ?_⟩
-  intro s i r hr rq hrq
-  rw [hr] at h2
-  obtain ⟨hi, h3⟩ := h2
-  obtain ⟨p1, p2⟩ := h3 rq hrq
-  have hiff := spec_true_iff_applies hwf rq.env i hi
-  refine ⟨fun hrt => hiff.mp ((p1 (by rw [hrt]; decide)) ▸ hrt), p1, fun hv => ?_⟩
-  rw [p2 hv]; exact hiff
+  have h2 := run_ok hwf ops st0 pend0 n hlen hn h0 hd so hso
+  constructor
+  · intro s i r hr rq hrq
+    rw [hr] at h2
+    obtain ⟨hi, h3⟩ := h2
+    obtain ⟨p1, p2⟩ := h3 rq hrq
+    have hiff := spec_true_iff_applies hwf rq.env i hi
+    refine ⟨fun hrt => hiff.mp ((p1 (by rw [hrt]; decide)) ▸ hrt), p1, fun hv => ?_⟩
+    rw [p2 hv]; exact hiff
+  · intro s dirs conf hc rq hrq hv d
+    rw [hc] at h2
+    rw [h2 rq hrq hv]
+    exact specMerge_lastWins hwf rq.env dirs d hnodes
 
 /-- The four-valued specification is the recursion of the property statement:
     `true` exactly for the blocks that apply. -/
 theorem c14_spec_is_language (t : Tree) (hwf : WF t) (e : Env) (i : Nat) (hi : i < t.length) :
     spec t e i = .true_ ↔ Applies t e i :=
   spec_true_iff_applies hwf e i hi
+
+/-- A check is decided, and correct, as soon as the fields the block depends on are
+    available — whatever else is (not) available: connection-level masks (socket + peer
+    address, + SNI host/scheme), the 8-field mask after a request restart, or all bits. -/
+theorem c14_decided_iff_language (t : Tree) (hwf : WF t) (e : Env) (valid : Comp → Bool) (c : Cache)
+    (hc : Coh t e c) (i : Nat) (hi : i < t.length) (hv : DepsValid t valid i) :
+    ((check t e valid t.length i c).1 = .true_ ↔ Applies t e i) ∧
+    (check t e valid t.length i c).1 ≠ .unset := by
+  obtain ⟨_, a2, _, a4⟩ := check_post hwf e valid t.length i c hi hi hc
+  refine ⟨?_, a4 hv⟩
+  rw [(a2 (a4 hv)).1]
+  exact spec_true_iff_applies hwf e i hi
+
+/-- every field tested in the configuration available ⇒ every block's dependencies are -/
+theorem c14_tree_valid_suffices (t : Tree) (hwf : WF t) (valid : Comp → Bool) (hv : TreeValid t valid)
+    (i : Nat) (h1 : 1 ≤ i) (hi : i < t.length) : DepsValid t valid i :=
+  depsValid_of_treeValid hwf hv h1 hi
 
 /-- Re-evaluation after a rewrite: changing the attribute of one field and calling
     config_cond_cache_reset_item() for that field leaves a cache that is coherent with
@@ -74,130 +109,118 @@ theorem c14_reset_item_coherent (t : Tree) (hwf : WF t) (e : Env) (c : Cache) (h
 /-- The result of a check is independent of evaluation order: whatever blocks were
     evaluated before, in whatever order, on whatever coherent cache. -/
 theorem c14_order_independent (t : Tree) (hwf : WF t) (e : Env) (valid : Comp → Bool)
-    (hv : ∀ k, valid k = true) (c1 c2 : Cache) (h1 : Coh t e c1) (h2 : Coh t e c2)
+    (c1 c2 : Cache) (h1 : Coh t e c1) (h2 : Coh t e c2)
     (ks1 ks2 : List Nat) (hk1 : ∀ k ∈ ks1, k < t.length) (hk2 : ∀ k ∈ ks2, k < t.length)
-    (i : Nat) (hi : i < t.length) :
+    (i : Nat) (hi : i < t.length) (hv : DepsValid t valid i) :
     (check t e valid t.length i (checkAll t e valid ks1 c1)).1 =
     (check t e valid t.length i (checkAll t e valid ks2 c2)).1 := by
   obtain ⟨_, a2, _, a4⟩ := check_post hwf e valid t.length i _ hi hi (checkAll_coh hwf e valid ks1 hk1 c1 h1)
   obtain ⟨_, b2, _, b4⟩ := check_post hwf e valid t.length i _ hi hi (checkAll_coh hwf e valid ks2 hk2 c2 h2)
   rw [(a2 (a4 hv)).1, (b2 (b4 hv)).1]
 
-/-! ## 2. merge in file order: the last contributing block wins, per directive -/
+/-- Connection-level results copied into streams: whatever the connection's request
+    evaluated (any blocks, any order) while only the listening socket and the peer address
+    were available is, taken over by a stream of that connection, coherent with the STREAM's
+    attributes `e'` (which share socket and peer address and differ arbitrarily otherwise). -/
+theorem c14_stream_inherits_connection_level (t : Tree) (hwf : WF t) (e e' : Env)
+    (hs : e'.socket = e.socket) (ha : e'.addr = e.addr) (hi : e'.ipStr = e.ipStr)
+    (valid : Comp → Bool) (hv : ∀ k, valid k = true → k = .socket ∨ k = .remoteIp)
+    (ks : List Nat) (hks : ∀ k ∈ ks, k < t.length) :
+    Coh t e' (checkAll t e valid ks (Cache.empty t.length)) := by
+  rw [← checkAll_env_agree t e e' valid
+    (fun i hvi => evalLocal_conn_level _ e e' hs ha hi (hv _ hvi))]
+  exact checkAll_coh hwf e' valid ks hks _ (coh_empty t e')
+
+/-! ## 2. merge in context order: the last contributing block wins, per directive
+   ("file order" = order of the contexts = order in which each distinct condition first
+    occurs in the file) -/
 
 /-- A module's patch_config() (defaults from the global scope, then every block of its
-    cvlist in file order whose check is true): for each directive `d`
-      * if block `i` contributes (it is the global scope or it applies) and assigns `d := v`,
-        and no later block that applies assigns `d`, the result is `v`;
-      * if no contributing block assigns `d`, the result is the built-in default (0);
-    for every tree, request, and prior (coherent) cache state. -/
+    cvlist in order whose check is true): each directive gets the value of the last
+    contributing block, the built-in default if none — for every tree, request and prior
+    (coherent) cache state, whenever every field tested in the configuration is available. -/
 theorem c14_merge_last_wins (t : Tree) (hwf : WF t) (e : Env) (valid : Comp → Bool)
-    (hv : ∀ k, valid k = true) (dirs : List Nat) (c : Cache) (hc : Coh t e c) (d : Nat)
+    (hv : TreeValid t valid) (dirs : List Nat) (c : Cache) (hc : Coh t e c) (d : Nat)
     (hn : 0 < t.length) :
-    (∀ i v, i < t.length → (i = 0 ∨ Applies t e i) →
-      lastSet (ownSets dirs (t.node i)) d = some v →
-      (∀ j, i < j → j < t.length → Applies t e j → lastSet (ownSets dirs (t.node j)) d = none) →
-      (patch t e valid dirs c).1 d = v) ∧
-    ((∀ i, i < t.length → (i = 0 ∨ Applies t e i) → lastSet (ownSets dirs (t.node i)) d = none) →
-      (patch t e valid dirs c).1 d = 0) := by
-  have hp := (patch_post hwf e valid dirs c hc).2 hv
-  have hnoContrib : ∀ j, j < t.length → 1 ≤ j →
-      (Applies t e j → lastSet (ownSets dirs (t.node j)) d = none) →
-      ∀ v', ¬ Contrib t e dirs d j v' := by
-    intro j hj _ h v' hcv
-    have := h ((spec_true_iff_applies hwf e j hj).mp hcv.1)
-    rw [hcv.2] at this; cases this
-  have hmem : ∀ j ∈ (List.range t.length).drop 1, 1 ≤ j ∧ j < t.length := by
-    intro j hj
-    have h1 : j < t.length := by simpa using List.mem_of_mem_drop hj
-    refine ⟨?_, h1⟩
-    rcases Nat.eq_zero_or_pos j with h | h
-    · subst h
-      exfalso
-      have hpw : (List.range t.length).Pairwise (· < ·) := List.pairwise_lt_range
-      have hsplit := List.take_append_drop 1 (List.range t.length)
-      rw [← hsplit, List.pairwise_append] at hpw
-      have h0 : 0 ∈ (List.range t.length).take 1 := by
-        rw [List.mem_iff_getElem]
-        exact ⟨0, by simp; omega, by simp⟩
-      exact absurd (hpw.2.2 0 h0 0 hj) (by omega)
-    · exact h
-  constructor
-  · intro i v hi hap hset hlater
-    rw [hp]
-    rcases Nat.eq_zero_or_pos i with h0 | hpos
-    · subst h0
-      rw [specMerge_none t e dirs d _ _ (fun j hj v' =>
-        hnoContrib j (hmem j hj).2 (hmem j hj).1
-          (fun ha => hlater j (by have := (hmem j hj).1; omega) (hmem j hj).2 ha) v')]
-      rw [mergeSets_eq, hset]; rfl
-    · have ha : Applies t e i := by
-        rcases hap with h | h
-        · omega
-        · exact h
-      obtain ⟨L1, L2, hL, hL2⟩ := range_split hpos hi
-      rw [hL]
-      exact specMerge_last t e dirs d L1 L2 i v _
-        ⟨(spec_true_iff_applies hwf e i hi).mpr ha, hset⟩
-        (fun j hj v' => hnoContrib j (hL2 j hj).2 (by have := (hL2 j hj).1; omega)
-          (fun ha' => hlater j (hL2 j hj).1 (hL2 j hj).2 ha') v')
-  · intro hnone
-    rw [hp, specMerge_none t e dirs d _ _ (fun j hj v' =>
-      hnoContrib j (hmem j hj).2 (hmem j hj).1 (fun ha => hnone j (hmem j hj).2 (Or.inr ha)) v')]
-    rw [mergeSets_eq, hnone 0 hn (Or.inl rfl)]; rfl
+    LastWins t e dirs d ((patch t e valid dirs c).1 d) := by
+  rw [(patch_post hwf e valid dirs c hc).2 hv]
+  exact specMerge_lastWins hwf e dirs d hn
 
-/-! ## 3. CIDR matching (sock_addr_is_addr_eq_bits) -/
+/-! ## 3. CIDR matching (`$HTTP["remoteip"] == "net/n"`, sock_addr_is_addr_eq_bits) -/
 
-/-- IPv4 network / IPv4 peer: equal iff the first `n` bits agree. -/
-theorem c14_cidr_v4 (a b : List UInt8) (n : Nat) (ha : a.length = 4) (hb : b.length = 4)
-    (h1 : 1 ≤ n) (h2 : n ≤ 32) :
-    addrEqBits (.v4 a) (.v4 b) n = true ↔ beVal a >>> (32 - n) = beVal b >>> (32 - n) :=
-  addrEqBits_v4_iff ha hb h1 h2
-
-/-- IPv6 network / IPv6 peer: equal iff the first `n` bits agree. -/
-theorem c14_cidr_v6 (a b : List UInt8) (n : Nat) (ha : a.length = 16) (hb : b.length = 16)
-    (h1 : 1 ≤ n) (h2 : n ≤ 128) :
-    addrEqBits (.v6 a) (.v6 b) n = true ↔ beVal a >>> (128 - n) = beVal b >>> (128 - n) :=
-  addrEqBits_v6_iff ha hb h1 h2
-
-/-- IPv4 network / IPv6 peer: matches iff the peer is IPv4-mapped and its embedded IPv4
-    address matches. -/
-theorem c14_cidr_v4_net_mapped_peer (a b : List UInt8) (n : Nat) :
-    addrEqBits (.v4 a) (.v6 b) n = (isV4Mapped b && addrEqBits (.v4 a) (.v4 (low4 b)) n) := rfl
-
-/-- IPv6 network / IPv4 peer: the peer is compared as its IPv4-mapped form ::ffff:a.b.c.d
-    (and never matches a network whose base address is not IPv4-mapped). -/
-theorem c14_cidr_mapped_net_v4_peer (a b : List UInt8) (n : Nat) (ha : a.length = 16)
-    (hb : b.length = 4) (h1 : 1 ≤ n) (h2 : n ≤ 128) :
-    addrEqBits (.v6 a) (.v4 b) n = (isV4Mapped a && addrEqBits (.v6 a) (.v6 (v4mapped b)) n) := by
-  cases hm : isV4Mapped a with
-  | true => rw [addrEqBits_v6_v4 ha hb h1 h2 hm]; simp
-  | false => rw [addrEqBits_v6_v4_unmapped hm]; simp
-
-/-- what a `$HTTP["remoteip"] == "net/bits"` block tests -/
-theorem c14_cidr_cond (nd : Node) (e : Env) (a : SockAddr) (bits : Nat)
+/-- IPv4 network, IPv4 peer: the block's condition holds iff the first `n` bits agree. -/
+theorem c14_cidr_v4 (nd : Node) (e : Env) (a b : List UInt8) (n : Nat)
     (hc : nd.comp = .remoteIp) (ho : nd.cond = .eq) (hs : nd.str.head? ≠ some slash)
-    (hn : nd.cidr = some (a, bits)) :
-    evalLocal nd e = if bits ≠ 0 then a.addrEqBits e.addr bits else a.addrEq e.addr := by
-  simp [evalLocal, eqLike, hc, ho, hs, hn]
+    (hn : nd.cidr = some (.v4 a, n)) (he : e.addr = .v4 b)
+    (ha : a.length = 4) (hb : b.length = 4) (h1 : 1 ≤ n) (h2 : n ≤ 32) :
+    evalLocal nd e = true ↔ beVal a >>> (32 - n) = beVal b >>> (32 - n) := by
+  rw [evalLocal_remoteip_eq nd e _ n hc ho hs hn, he, ← addrEqBits_v4_iff ha hb h1 h2]
+  have : n ≠ 0 := by omega
+  simp [this]
+
+/-- IPv6 network, IPv6 peer: the block's condition holds iff the first `n` bits agree. -/
+theorem c14_cidr_v6 (nd : Node) (e : Env) (a b : List UInt8) (n : Nat)
+    (hc : nd.comp = .remoteIp) (ho : nd.cond = .eq) (hs : nd.str.head? ≠ some slash)
+    (hn : nd.cidr = some (.v6 a, n)) (he : e.addr = .v6 b)
+    (ha : a.length = 16) (hb : b.length = 16) (h1 : 1 ≤ n) (h2 : n ≤ 128) :
+    evalLocal nd e = true ↔ beVal a >>> (128 - n) = beVal b >>> (128 - n) := by
+  rw [evalLocal_remoteip_eq nd e _ n hc ho hs hn, he, ← addrEqBits_v6_iff ha hb h1 h2]
+  have : n ≠ 0 := by omega
+  simp [this]
+
+/-- IPv4 network, IPv6 peer: holds iff the peer is IPv4-mapped (::ffff:a.b.c.d) and the first
+    `n` bits of the embedded IPv4 address agree. -/
+theorem c14_cidr_v4_net_mapped_peer (nd : Node) (e : Env) (a b : List UInt8) (n : Nat)
+    (hc : nd.comp = .remoteIp) (ho : nd.cond = .eq) (hs : nd.str.head? ≠ some slash)
+    (hn : nd.cidr = some (.v4 a, n)) (he : e.addr = .v6 b)
+    (ha : a.length = 4) (hb : b.length = 16) (h1 : 1 ≤ n) (h2 : n ≤ 32) :
+    evalLocal nd e = true ↔
+      isV4Mapped b = true ∧ beVal a >>> (32 - n) = beVal (low4 b) >>> (32 - n) := by
+  rw [evalLocal_remoteip_eq nd e _ n hc ho hs hn, he]
+  have : n ≠ 0 := by omega
+  have hl : (low4 b).length = 4 := by simp [low4, hb]
+  simp only [this, ne_eq, not_false_eq_true, if_true]
+  show (isV4Mapped b && addrEqBits (.v4 a) (.v4 (low4 b)) n) = true ↔ _
+  rw [Bool.and_eq_true, addrEqBits_v4_iff ha hl h1 h2]
+
+/-- IPv6 network, IPv4 peer: the peer is compared as its IPv4-mapped form ::ffff:a.b.c.d —
+    first `n` of 128 bits — and never matches a network whose base is not IPv4-mapped. -/
+theorem c14_cidr_mapped_net_v4_peer (nd : Node) (e : Env) (a b : List UInt8) (n : Nat)
+    (hc : nd.comp = .remoteIp) (ho : nd.cond = .eq) (hs : nd.str.head? ≠ some slash)
+    (hn : nd.cidr = some (.v6 a, n)) (he : e.addr = .v4 b)
+    (ha : a.length = 16) (hb : b.length = 4) (h1 : 1 ≤ n) (h2 : n ≤ 128) :
+    evalLocal nd e = true ↔
+      isV4Mapped a = true ∧ beVal a >>> (128 - n) = beVal (v4mapped b) >>> (128 - n) := by
+  rw [evalLocal_remoteip_eq nd e _ n hc ho hs hn, he]
+  have : n ≠ 0 := by omega
+  have hl : (v4mapped b).length = 16 := by simp [v4mapped, hb]
+  simp only [this, ne_eq, not_false_eq_true, if_true]
+  cases hm : isV4Mapped a with
+  | true =>
+    rw [addrEqBits_v6_v4 ha hb h1 h2 hm, addrEqBits_v6_iff ha hl h1 h2]; simp
+  | false => rw [addrEqBits_v6_v4_unmapped hm]; simp
 
 /-! ## 4. host[:port] -/
 
 /-- `$HTTP["host"] == "d"` holds iff the request's authority equals `d`, or is `d` plus a
     ":port" suffix of at most 5 characters, or `d` is the authority plus a ":port" suffix —
-    and in no other case; `!=` is the exact negation. -/
+    and in no other case; `!=` holds exactly when none of these does. -/
 theorem c14_host_port_rule (nd : Node) (e : Env) (hc : nd.comp = .host)
     (hs : nd.str.head? ≠ some slash) :
     (nd.cond = .eq → (evalLocal nd e = true ↔
       e.host = nd.str ∨
       (e.host ≠ [] ∧ ((∃ p, e.host = nd.str ++ colon :: p ∧ p.length ≤ 5) ∨
                       (∃ p, nd.str = e.host ++ colon :: p))))) ∧
-    (nd.cond = .ne → evalLocal nd e = !(eqLike nd e)) := by
+    (nd.cond = .ne → (evalLocal nd e = true ↔
+      ¬ (e.host = nd.str ∨
+      (e.host ≠ [] ∧ ((∃ p, e.host = nd.str ++ colon :: p ∧ p.length ≤ 5) ∨
+                      (∃ p, nd.str = e.host ++ colon :: p)))))) := by
   constructor
   · intro ho
     rw [← host_eq_iff nd e hc hs]
     simp [evalLocal, ho, hc]
   · intro ho
+    rw [← host_eq_iff nd e hc hs]
     simp [evalLocal, ho, hc]
 
 /-! ## 5. the selective reset must walk the whole else-chain
@@ -220,11 +243,33 @@ theorem c14_old_clear_walk_stale :
 /-! ## non-vacuity -/
 
 example : WF Ex.tree := by decide
-example : AllCoh Ex.tree [Req.fresh Ex.tree.length] := by
-  intro rq hrq
-  simp only [List.mem_singleton] at hrq
-  subst hrq
-  exact coh_empty _ _
+example : SlotsOk Ex.tree [Req.fresh Ex.tree.length] [] := by
+  intro s rq hs _
+  cases s with
+  | zero => simp only [List.getElem?_cons_zero, Option.some.injEq] at hs; subst hs; exact coh_empty _ _
+  | succ s => simp at hs
+example : Disciplined 1 [] Ex.ops := by simp [Ex.ops, Disciplined]
+/-- a history with a stream: evaluated on the connection's request, spawned, given its
+    request (full reset), evaluated -/
+example : Disciplined 1 []
+    [.check 0 1, .spawn, .newReq 1 [(.host, .str (ofString "h2"))] Ex.allValid, .check 1 3] := by
+  simp [Disciplined]
+/-- the 8-field mask of http_response_comeback() (no bit for COMP_UNSET) makes every field of
+    the configuration available, although it is not "all bits" -/
+example : TreeValid Ex.tree (validOf Ex.allValid) := by
+  intro i h1 hi
+  have hl : Ex.tree.length = 4 := by decide
+  rw [hl] at hi
+  rcases (by omega : i = 1 ∨ i = 2 ∨ i = 3) with rfl | rfl | rfl <;> decide
+example : ¬ ∀ k, validOf Ex.allValid k = true := by
+  intro h; exact absurd (h .unset) (by decide)
+/-- connection-level mask: only blocks depending on socket / peer address are decided -/
+example : DepsValid [{}, { comp := .remoteIp, cond := .eq }] (validOf [.socket, .remoteIp]) 1 := by
+  intro k hk
+  cases hk with
+  | self => decide
+  | parent h _ => exact absurd rfl h
+  | prev h _ => cases h
 /-- the interesting run really produces observations, and block 3 applies at its end -/
 example : (run true Ex.tree [Req.fresh Ex.tree.length] Ex.ops).length = 4 := by decide
 example : evalLocal (Ex.tree.node 3) { host := ofString "h2", url := ofString "/b/x" } = true := by decide
